@@ -1,7 +1,7 @@
 (** C05 — Indicator raw values equal the documented formulas (theorems added per indicator). *)
 From Yata Require Import Base.Prelude Base.Num Base.NumR Core.Window Core.Candle Core.Action
   Spec.Hist Spec.MethodDefs Spec.IndicatorDefs Methods.Basic Methods.Select Indicators.Common Indicators.Set1 Indicators.Set2 Indicators.Set3 Indicators.Set4 Indicators.Set5
-  Proofs.IndicatorProofs Proofs.IndicatorProofs2 Proofs.IndicatorProofs3 Proofs.IndicatorProofs4 Proofs.IndicatorProofs5 Proofs.IndicatorProofs6 Proofs.IndicatorProofs7 Proofs.IndicatorProofs8 Proofs.IndicatorProofs9 Proofs.IndicatorProofs10 Proofs.IndicatorProofs11 Proofs.IndicatorProofs12 Proofs.IndicatorProofs13 Proofs.IndicatorProofs14 Proofs.IndicatorProofs15 Proofs.IndicatorProofs16 Proofs.Windowed5 Proofs.MAProofs.
+  Proofs.IndicatorProofs Proofs.IndicatorProofs2 Proofs.IndicatorProofs3 Proofs.IndicatorProofs4 Proofs.IndicatorProofs5 Proofs.IndicatorProofs6 Proofs.IndicatorProofs7 Proofs.IndicatorProofs8 Proofs.IndicatorProofs9 Proofs.IndicatorProofs10 Proofs.IndicatorProofs11 Proofs.IndicatorProofs12 Proofs.IndicatorProofs13 Proofs.IndicatorProofs14 Proofs.IndicatorProofs15 Proofs.IndicatorProofs16 Proofs.Psar Proofs.Windowed5 Proofs.MAProofs.
 From Coq Require Import Reals.
 Open Scope Z_scope.
 
@@ -201,4 +201,14 @@ Theorem C05_average_directional_index (cfg : adx_cfg (N := NumR)) (c0 : C) cs c 
   exists s0, adx_init cfg c0 = Ok s0 /\
     fst (snd (adx_next (steps adx_next s0 cs) c)) = adx_values cfg c0 (rev (cs ++ [c])).
 Proof. exact (adx_values_correct cfg c0 cs c). Qed.
+(** ParabolicSAR (its definition is the documented recursion itself; checked against it on the implementation): structure
+    of every reachable state - the returned trend is +1 or -1 at every step and the acceleration factor of the next update,
+    min(af_max, af_step * number of new extremes since the last reversal), lies between af_step and af_max *)
+Theorem C05_parabolic_sar_trend (step mx : @F NumR) k s0 cs c : psar_init step mx k = Ok s0 ->
+  exists t, (t = 1 \/ t = -1) /\ nth 1 (fst (snd (psar_next (steps psar_next s0 cs) c))) f0 = fofZ t.
+Proof. exact (psar_trend_value step mx k s0 cs c). Qed.
+Theorem C05_parabolic_sar_acceleration (step mx : @F NumR) k s0 cs : psar_init step mx k = Ok s0 -> (0 < step)%R ->
+  let s := steps psar_next s0 cs in
+  (step <= fmin (ps_max s) (fmul (ps_step s) (fofZ (ps_inc s))) <= mx)%R.
+Proof. exact (psar_af_range step mx k s0 cs). Qed.
 End C05.
